@@ -155,6 +155,6 @@ let () =
           | V4 s -> (
               match toks with
               | "OUT" :: r -> st := run4 s (Out (parse_request r))
-              | "IN" :: r -> st := run4 s (In (parse_packet r))
+              | "IN" :: r -> st := run4 s (Inc (parse_packet r))
               | [ "CLEAN" ] -> st := run4 s Clean
               | _ -> failwith ("bad op: " ^ line))))
